@@ -180,7 +180,9 @@ S8 = Scenario(
     "S8-data-and-top", seeds.seed_children,
     ["element.name=", "element.del_name", "element.setitem", "element.delitem", "element.pop",
      "netlist.top_instance=", "netlist.top_instance=None", "netlist.set_top_instance", "netlist.set_top_instance.name",
-     "definition.create_child", "definition.create_port", "definition.create_cable"],
+     "definition.create_child", "definition.create_port", "definition.create_cable",
+     "definition.create_child.props", "definition.create_port.props", "definition.create_cable.props",
+     "library.create_definition.props", "netlist.create_library.props"],
     limits={"positions": (None,), "names": (None, "a"), "keys": (".NAME", "k"), "counts": (None, 1),
             "elem_kinds": "NLDX"},
     depth={"quick": 2, "thorough": 3},
